@@ -46,6 +46,24 @@ def collect(h):
     v = "true" if re.search(r"ExpireAt|ReadWithExpiration|binary\.BigEndian\.Uint64\(v", body) else "false"
     items.append(("bbolt_cleaner_checks_expiry", "bool", v, rel + " removeKey"))
 
+    # conditional operations: the check and the write in ONE transaction (finding F6: a read transaction
+    # for the check followed by a separate write transaction lets two concurrent callers both win)
+    single = True
+    for fn in ("InsertIfNotExists", "CompareAndSwap", "CompareAndDelete"):
+        body = h.func_body(rel, r"^func \(s \*appStorageType\) " + fn + r"\(", "bbolt " + fn)
+        n_update = len(re.findall(r"s\.db\.Update\(", body))
+        n_view = len(re.findall(r"s\.db\.View\(", body))
+        helpers = [x for x in re.findall(r"s\.(\w+)\(", body) if x not in ("putValue", "currentValue")]
+        if n_update != 1:
+            raise h.Missing(f"{rel}: {fn} no longer has exactly one s.db.Update transaction; update C06_Storage/Conc.v")
+        if n_view > 0 or any(hn in ("findValue",) for hn in helpers):
+            single = False
+    if single:
+        body = h.func_body(rel, r"^func \(s \*appStorageType\) currentValue\(", "bbolt currentValue")
+        if re.search(r"s\.db\.(View|Update)\(", body):
+            single = False
+    items.append(("bbolt_cond_ops_single_tx", "bool", "true" if single else "false", rel + " InsertIfNotExists/CompareAndSwap/CompareAndDelete"))
+
     rel = "pkg/istorage/bbolt/consts.go"
     m = h.find(rel, r"^\s*cleanupInterval\s*=\s*(.+)$", "cleanupInterval")
     expr = m.group(1).strip()
